@@ -226,17 +226,28 @@ impl Request {
     ) -> Result<Option<()>, crate::Response> {
         use crate::Response;
 
-        let n = match stream.read(&mut *self.__buf__).await {
-            Ok (0) => return Ok(None),
-            Err(e) => return match e.kind() {
-                std::io::ErrorKind::ConnectionReset => Ok(None),
-                _ => Err((|err| {
-                    crate::warning!("Failed to read stream: {err}");
-                    Response::InternalServerError()
-                })(e))
-            },
-            Ok (n) => n
-        };
+        // A request head may arrive in several TCP segments:
+        // read until the end of the head ( or the buffer ) is reached
+        let mut n = 0;
+        loop {
+            match stream.read(&mut self.__buf__[n..]).await {
+                Ok (0) => return Ok(None),
+                Err(e) => return match e.kind() {
+                    std::io::ErrorKind::ConnectionReset => Ok(None),
+                    _ => Err((|err| {
+                        crate::warning!("Failed to read stream: {err}");
+                        Response::InternalServerError()
+                    })(e))
+                },
+                Ok (m) => {
+                    let scan_from = n.saturating_sub(3);
+                    n += m;
+                    if n == BUF_SIZE || self.__buf__[scan_from..n].windows(4).any(|w| w == b"\r\n\r\n") {
+                        break
+                    }
+                }
+            }
+        }
 
         let mut r = Reader::new(unsafe {
             // pass detouched bytes
